@@ -29,7 +29,7 @@ PKG = "yv-c08"
 TIERS = {
     # cfgs: exhaustive catalogues; sim: (num per worker, workers, depth); harness exploration options
     "quick": {"cfgs": ["MC_Subshell_quick.cfg"], "sim": (150, 4, 40),
-              "explore": ["--plans", "6", "--dfs-max", "3", "--random", "1"],
+              "explore": ["--plans", "6", "--dfs-max", "2", "--random", "0"],
               "explore_sim": ["--plans", "8", "--dfs-max", "2", "--random", "1"]},
     "thorough": {"cfgs": ["MC_Subshell_quick.cfg", "MC_Subshell_core3.cfg"], "sim": (2500, 4, 40),
                  "explore": ["--plans", "12", "--dfs-max", "4", "--random", "2"],
